@@ -335,7 +335,7 @@ func genFuncs(c *core.Ctx, kr *keyring) error {
 	emit := func(d *fDoc, term string, fails []string) {
 		raw, _ := json.Marshal(d)
 		doc := replayDoc{Role: "func", F: raw, Why: fails}
-		c.AddCaseW(term, doc, 1+len(term)/1000)
+		c.AddCaseW(term, doc, 1+len(term)/600)
 		c.OracleCheck()
 		c.Count("func:" + d.Kind)
 		for _, f := range fails {
@@ -483,7 +483,7 @@ func genFuncs(c *core.Ctx, kr *keyring) error {
 		tc := tc
 		model := true
 		if strings.HasPrefix(tc.t.Mut.Kind, "flip-") {
-			model = !c.Quick() || nflip%4 == 0
+			model = nflip%boolInt(c.Quick(), 8, 2) == 0
 			nflip++
 		}
 		emit := func(d *fDoc, term string, fails []string) {
@@ -507,12 +507,12 @@ func genFuncs(c *core.Ctx, kr *keyring) error {
 		if tc.name == "honest" {
 			c.Sample(map[string]interface{}{"fn": "VerifyIDToken", "case": tc.name, "accept": acc})
 		}
-		if !strings.HasPrefix(tc.t.Mut.Kind, "flip-h") && tc.w == &kr.w0 {
+		if !strings.HasPrefix(tc.t.Mut.Kind, "flip-h") && tc.w == &kr.w0 && (model || !c.Quick()) {
 			d2 := &fDoc{Kind: "load", Tok: tc.t}
 			term, fails = loadCase(d2)
 			emit(d2, term, fails)
 		}
-		if tc.t.Mut.Kind == "" || strings.HasPrefix(tc.t.Mut.Kind, "flip-h") || strings.HasPrefix(tc.t.Mut.Kind, "flip-p") {
+		if tc.t.Mut.Kind == "" || ((model || !c.Quick()) && (strings.HasPrefix(tc.t.Mut.Kind, "flip-h") || strings.HasPrefix(tc.t.Mut.Kind, "flip-p"))) {
 			for _, claimed := range []string{"root@pool.example"} {
 				d3 := &fDoc{Kind: "validate", W: tc.w, Tok: tc.t, Claimed: claimed}
 				term, fails, acc := validateCase(d3)
